@@ -10,7 +10,27 @@ META = {
 
 
 def run(ctx):
+    # a replay file belongs to one of the two areas of this check: only that one is run on it
+    replay_area = None
+    if ctx.replay_file:
+        replay_area = (json.load(open(ctx.replay_file)).get("replay") or {}).get("area")
+    if replay_area == "dryparam":
+        ctx.cov["trusted_base"] = TRUSTED
+        ctx.l1()
+        if not (ctx.ensure_driver() and ctx.ensure_harness()):
+            return
+    else:
+        engine_part(ctx)
+        if replay_area == "engine":
+            return
+    dryparam_part(ctx)
+
+
+def engine_part(ctx):
     run_check(ctx, 'C14', ["events", "ack", "chain", "guard-ik", "guard-ref", "guard-revert", "floor"], lambda scn, run: any(q.get("dry") for q in scn["requests"]) and any(not q.get("dry") for q in scn["requests"]), 'a preview and at least one real write')
+
+
+def dryparam_part(ctx):
     # API layer: how the preview flag reaches the engine (anchors api/v2/query.go, api/v1/utils.go)
     r = pipeline(ctx, "dryparam", 0)
     if r is None:
